@@ -567,12 +567,19 @@ func c02handlers(c *Ctx, p *Prog) {
 			}
 			fl.Call = func(fr *Frame, st string, call ssa.CallInstruction, deferred bool) (bool, []string) {
 				callee := p.Callee(call)
-				if callee != nil && callee.Name() == "Release" && callee.Signature.Recv() != nil && st != "stop" {
+				cargs := call.Common().Args
+				if callee == nil {
+					// the inner discipline's Release handed on as a method value
+					if ts := p.funcValueTargets(fr, call); len(ts) == 1 {
+						callee, cargs = ts[0].Fn, ts[0].Args
+					}
+				}
+				if callee != nil && callee.Name() == "Release" && callee.Signature.Recv() != nil && st != "stop" && len(cargs) == 2 {
 					releases++
 					if st != "handled" {
 						problem("release at %s in state %q (must follow Handle exactly once)", p.InstrPos(call), st)
 					}
-					if !fieldOfItem(fr, call.Common().Args[1], "Priority") {
+					if !fieldOfItem(fr, cargs[1], "Priority") {
 						problem("release at %s does not pass the received item's Priority", p.InstrPos(call))
 					}
 					return true, []string{"none"}
